@@ -22,7 +22,8 @@ LEVEL = "exploration"
 BUDGET = {"quick": 150000, "thorough": 3000000}
 RULE = (
     "each run draws maxsize in {None,-1,0,1..5,default}, typed, decorator form (bare, (), maxsize=, "
-    "functools-style positional, cache), binding (function, method on two instances, classmethod, "
+    "functools-style positional, direct call lru_cache(f, typed), cache), binding (function, method on two kept "
+    "instances and on temporaries only their bound accessor refers to, classmethod, "
     "staticmethod) and a history of <=40 ops over {call(pattern), cache_clear, cache_info, cache_parameters, "
     "cache_discard(pattern)}; patterns mix 1/1.0/True/'1'/(1,)/None/2/2.0, positional vs keyword and keyword "
     "order, positional tuples that look like keyword items; results are fresh tuples or None / falsy values; "
@@ -41,7 +42,7 @@ ASSUMPTIONS = [
 PROBES = ("eviction", "typed_distinguishes", "discard_hit", "discard_miss",
           "failing_call", "method_binding", "clear_midway", "keyword_order")
 
-VALUES = (1, 1.0, True, "1", (1,), None, 2, 2.0, "2", 3)
+VALUES = (1, 1.0, True, "1", (1,), None, 2, 2.0, "2", 3, -1, -2)  # hash(-1) == hash(-2) in CPython: unequal all the same
 
 
 class Model:
@@ -83,7 +84,8 @@ def gen(ch):
     sc.maxsize_sel = ch.draw(10)  # 0:default 1:None 2:-1 3:0 4..8:1..5 9:2
     sc.maxsize = (128, None, -1, 0, 1, 2, 3, 4, 5, 2)[sc.maxsize_sel]
     sc.typed = ch.chance(1, 3)
-    sc.form = ch.draw(4)  # 0 bare (only default maxsize) 1 call form 2 keyword form 3 cache (only None)
+    # 0 bare (only default maxsize) 1 call form 2 keyword form 3 cache (only None) 4 direct call with typed: lru_cache(f, typed)
+    sc.form = ch.draw(5)
     sc.binding = ch.weighted([5, 2, 1, 1])  # function, method, classmethod, staticmethod
     sc.susp = [ch.draw(3) for _ in range(3)]
     nvals = ch.between(2, 5)
@@ -118,7 +120,7 @@ def gen(ch):
     for _ in range(ch.between(1, 40)):
         kind = ch.weighted([12, 1, 2, 1, 2 if discards else 0])  # call clear info params discard
         pat = ch.draw(npat)
-        inst = ch.draw(2)
+        inst = ch.weighted([4, 4, 1])  # two kept instances; 2 = a temporary instance nobody else refers to (methods only)
         fail = ch.chance(1, 8)
         ops.append((kind, pat, inst, fail))
     sc.ops = ops
@@ -126,7 +128,7 @@ def gen(ch):
 
 
 def effective_maxsize(sc):
-    if sc.form == 0:
+    if sc.form in (0, 4):
         return 128
     if sc.form == 3:
         return None
@@ -140,6 +142,8 @@ def decorate(sc, L, func, ref):
         return mod.lru_cache(func)
     if sc.form == 3:
         return mod.cache(func)
+    if sc.form == 4:
+        return mod.lru_cache(func, sc.typed)
     if sc.form == 1:
         return mod.lru_cache(sc.maxsize, sc.typed)(func)
     return mod.lru_cache(maxsize=sc.maxsize, typed=sc.typed)(func)
@@ -154,9 +158,9 @@ class Side:
         self.fail_next = False
         self.result_mode = 0
 
-    def body(self, args, kwargs):
+    def body(self, args, kwargs, label=None):
         self.serial += 1
-        self.invocations.append((self.serial, repr(args), repr(sorted(kwargs.items()))))
+        self.invocations.append((self.serial, repr(args), repr(sorted(kwargs.items())), label))
         if self.fail_next:
             self.fail_next = False
             raise InjectedFault("call%d" % self.serial)
@@ -169,7 +173,7 @@ def build(sc, sim, ref):
     side = Side()
     side.result_mode = sc.result_mode
     L = lib()
-    typed = sc.typed if sc.form in (1, 2) else False
+    typed = sc.typed if sc.form in (1, 2, 4) else False
     if ref:
         def func(*args, **kwargs):
             return side.body(args, kwargs)
@@ -189,20 +193,31 @@ def build(sc, sim, ref):
     else:
         if ref:
             def meth(self_, *args, **kwargs):
-                return side.body(args, kwargs)
+                return side.body(args, kwargs, getattr(self_, "label", None) if sc.binding == 1 else None)
         else:
             susp = sc.susp
 
             async def meth(self_, *args, **kwargs):
                 for _ in range(susp[side.serial % 3]):
                     await sim.suspend(PAUSE, None, "wrapped")
-                return side.body(args, kwargs)
+                return side.body(args, kwargs, getattr(self_, "label", "<no instance>") if sc.binding == 1 else None)
         if sc.binding == 1:
             ns = {"m": decorate(sc, L, meth, ref)}
             if sc.falsy_inst:
                 ns["__len__"] = lambda self_: 0  # an instance whose truth value is False is an instance all the same
             cls = type("Holder", (), ns)
             x, y = cls(), cls()
+            x.label, y.label = "inst0", "inst1"
+            side.n_temp = 0
+
+            def temp():
+                # the bound accessor is all that refers to this instance
+                side.n_temp += 1
+                t = cls()
+                t.label = "temp%d" % side.n_temp
+                return t.m
+
+            side.temp = temp
             side.targets = [x.m, y.m]
             side.prefix = [(x,), (y,)]
             side.cache = cls.m
@@ -230,7 +245,7 @@ async def history(sc, side, trace):
     for kind, pat, inst, fail in sc.ops:
         args, kw = sc.pats[pat]
         kwargs = dict(kw)
-        target = side.targets[inst]
+        target = side.temp() if (inst == 2 and sc.binding == 1) else side.targets[inst % 2]
         if kind == 0:
             side.fail_next = fail
             try:
@@ -260,8 +275,17 @@ def ref_history(sc, side, model, mside):
     for kind, pat, inst, fail in sc.ops:
         args, kw = sc.pats[pat]
         kwargs = dict(kw)
-        target = side.targets[inst]
-        margs = side_prefix_model(mside, inst) + args
+        label = None
+        if inst == 2 and sc.binding == 1:
+            target = side.temp()
+            mside.n_temp = getattr(mside, "n_temp", 0) + 1
+            margs = (("temp", mside.n_temp),) + args
+            label = "temp%d" % mside.n_temp
+        else:
+            target = side.targets[inst % 2]
+            margs = side_prefix_model(mside, inst % 2) + args
+            if sc.binding == 1:
+                label = "inst%d" % (inst % 2)
         if kind == 0:
             if ref_valid:
                 side.fail_next = fail
@@ -272,7 +296,7 @@ def ref_history(sc, side, model, mside):
                 side.fail_next = False
             mside.fail_next = fail
             try:
-                mres = ("ok", model.call(margs, kwargs, lambda: mside.body(args, kwargs)))
+                mres = ("ok", model.call(margs, kwargs, lambda: mside.body(args, kwargs, label)))
             except InjectedFault as err:
                 mres = ("fault", err.tag)
             mside.fail_next = False
